@@ -241,3 +241,24 @@ func freshValue(info *types.Info, e ast.Expr, pos token.Pos) ast.Expr {
 	}
 	return ast.Unparen(def)
 }
+
+// inspectValue traverses an expression and, at every identifier that stands for something
+// else (single-definition local, parameter of an extracted helper), also what it stands for
+// (up to three levels). Used by "this value derives from X" checks.
+func inspectValue(info *types.Info, e ast.Expr, f func(ast.Node) bool) {
+	var walk func(e ast.Node, depth int)
+	walk = func(e ast.Node, depth int) {
+		inspect(e, func(nd ast.Node) bool {
+			if !f(nd) {
+				return false
+			}
+			if id, ok := nd.(*ast.Ident); ok && depth < 3 {
+				if d := derefStep(info, id); d != nil {
+					walk(d, depth+1)
+				}
+			}
+			return true
+		})
+	}
+	walk(e, 0)
+}
